@@ -66,9 +66,9 @@ PROPS = {
     "C03": solver_prop("Props/Properties_C03.v", "proof",
         "Coq proof that the tree built from the store has true leaves, derived nodes entailed by their causes for every assignment, a top node forbidding the root, and shared ids exactly on the derived nodes with in-degree >= 2 (all occurrences of one id the same subtree); tree correspondence + independent proof-checking oracle",
         "7 Coq theorems: for every lawful VersionSet, registry, well-behaved trace and fuel, the derivation tree of a NoSolution outcome of the model satisfies tree_ok (every external leaf true of the provider: root requirement, dependency declared with exactly that set by every existing version in the stated set, no provider version in a NoVersions set, unavailable dependencies for Custom; every derived node's terms entailed by its two causes for EVERY assignment) and its top node forbids the root at the requested version. Shared ids (nosolution_tree_sharing, Proofs/SolverShared.v): the tree is tree_of of the store for a shared list that contains exactly the derived ids with in-degree >= 2 in the cause DAG reachable from the top id (= two different incoming edges; 'reachable along more than one path' is read as this in-degree, the top counting one edge from outside), a derived node built for id j carries Some j exactly when j is in the list, all occurrences of one id are the same subtree, and build_derivation_tree never fails on a run's store (the fuel of the model's DFS suffices). The Rust tree (structure, terms, shared ids) must equal the model's tree on every NoSolution case. Oracle: independent node-by-node proof checker on every NoSolution tree."),
-    "C04": solver_prop(None, "other",
-        "exploration with a reachability checker on every Ok result, tied to the Coq model by correspondence",
-        "NOT yet a Coq theorem (needs I5/I9). Every Ok result is checked: each selected package is reachable from the root through dependencies of selected versions."),
+    "C04": solver_prop("Props/Properties_C04.v", "proof",
+        "Coq proof by invariant over the whole control flow of the solver model (levels monotone in global indices; every dated derivation justified by its cause; correctness of the satisfier search; the conflict incompatibility stays satisfied along the rule of resolution) + C01 + C06; exploration with a reachability checker on every Ok result, tied to the model by correspondence",
+        "3 Coq theorems (Props/Properties_C04.v; Proofs/SolverReach1/2/.v ~1500 lines): for every lawful VersionSet, every registry with well-formed dependency sets, every provider trace that agrees with the registry and every fuel: if the model of resolve returns Ok(sol) then every selected package is the root or reachable from the root through the dependencies (as the registry gives them) of the SELECTED versions; equivalently every selected package other than the root is a dependency of some selected version (no orphan, e.g. one required only by a version that was backtracked away - the non-vacuity example is such a run). Proof: the solution restricted to the reachable packages is again a solution (C01); an unreachable selected package with the earliest first positive derivation would make that restriction violate the cause of the derivation, contradicting the validity of every stored incompatibility (C06). Oracle: every Ok result of the case stream is checked for reachability."),
     "C05": solver_prop(None, "other",
         "exploration under catch_unwind and a call budget (debug assertions and overflow checks on), every panic site of the source is an explicit outcome of the Coq model",
         "Termination is not provable with the available effort (section 10). The model has one Panic outcome per panic!/unwrap/expect/unreachable!/debug_assert site and the two Failure returns; the harness (built with debug-assertions and overflow-checks) runs every case under catch_unwind with a 20000-call budget: any panic, Failure or budget exhaustion on a fault-free well-behaved run is a violation; degenerate registries (root without versions, empty sets, unknown packages, cycles, self-dependencies, unavailable versions) are generated on purpose."),
